@@ -4,7 +4,7 @@
    terminated (no NoFuel), stayed inside every buffer it touched (no Oob), met no undefined behaviour (no Ub) and
    returned v, where v is written with the textbook functions of lib/Str.v and C13_Text.v. *)
 From Coq Require Import NArith ZArith Bool List.
-From CppUVerif Require Import lib.Str lib.CSem gen.Gen_Leaf C13_Text C13_Model C13_Proofs C13_Replace C13_Printable C13_Concat C13_Alloc C13_Main C13_LeafTie.
+From CppUVerif Require Import lib.Str lib.CSem gen.Gen_Leaf C13_Text C13_Model C13_Proofs C13_Replace C13_Printable C13_Concat C13_Alloc C13_Atoi C13_Main C13_LeafTie.
 Import ListNotations.
 Local Open Scope N_scope.
 
@@ -158,6 +158,31 @@ Print Assumptions C13_format_wrong_size_refuted.
 Theorem C13_alloc_wrong_size_detected : forall d, paired (rev (snd (deallocateInternalBuffer (step_wrong init d)))) = false.
 Proof. exact wrong_size_not_paired. Qed.
 Print Assumptions C13_alloc_wrong_size_detected.
+
+(* AtoI: blanks (' ', 0x09..0x0D) skipped, one optional sign, the maximal digit run as a number (0 if none), for every byte string
+   whose digit run fits an int (the contract of atoi): Ok = no read past the terminator, no signed overflow *)
+Theorem C13_AtoI_spec : forall s r, BY s -> (t_dec_value (t_atoi_digits s) <= 2147483647)%Z -> AtoI (s ++ 0 :: r) = Ok (t_atoi s).
+Proof. exact AtoI_ok. Qed.
+Print Assumptions C13_AtoI_spec.
+
+(* in particular for every string with at most 9 digits *)
+Theorem C13_AtoI_spec_9_digits : forall s r, BY s -> (length (t_atoi_digits s) <= 9)%nat -> AtoI (s ++ 0 :: r) = Ok (t_atoi s).
+Proof. exact AtoI_ok_9. Qed.
+Print Assumptions C13_AtoI_spec_9_digits.
+
+(* the precondition is needed: "2147483648" overflows the int of the code *)
+Theorem C13_AtoI_overflow_is_ub : AtoI (cs [50;49;52;55;52;56;51;54;52;56]) = Ub.
+Proof. exact AtoI_overflow_ub. Qed.
+Print Assumptions C13_AtoI_overflow_is_ub.
+
+(* AtoU: no sign handling; every byte string (unsigned arithmetic: the digit run's value modulo 2^32) *)
+Theorem C13_AtoU_spec : forall s r, BY s -> AtoU (s ++ 0 :: r) = Ok (t_atou s).
+Proof. exact AtoU_ok. Qed.
+Print Assumptions C13_AtoU_spec.
+
+Theorem C13_AtoU_fits_is_the_value : forall s, t_fits_unsigned s = true -> t_atou s = t_dec_value (t_atou_digits s).
+Proof. exact t_atou_fits. Qed.
+Print Assumptions C13_AtoU_fits_is_the_value.
 
 (* every operation of a valid scenario: never Oob / NoFuel / Ub ... *)
 Theorem C13_run_safe : forall o, valid o = true -> o_val (run o) <> VErr.
